@@ -102,7 +102,7 @@ def ensure_facts(repo=REPO, target=None, verbose=True):
             fh.write("%s extracted in %.1fs\n" % (th, time.time() - t0))
         # prune old fact dirs (keep 6 newest)
         dirs = sorted(glob.glob(os.path.join(CACHE, "facts", "*")), key=os.path.getmtime)
-        for d in dirs[:-6]:
+        for d in dirs[:-14]:
             if d != fdir:
                 subprocess.run(["rm", "-rf", d])
         if verbose:
